@@ -17,20 +17,51 @@ THEOREMS = [
     "C32_short_name_suffixed",
     "C32_base_from_name",
     "C32_first_try",
+    "C32_source_shape_control",
+    "C32_loop_closed_form",
+    "C32_gives_up_iff",
+    "C32_finds_when_free",
+    "C32_returned_was_validated",
+    "C32_gave_up_after_all_taken",
+    "C32_oracle_agrees",
+    "C32_oracle_valid_label",
+    "C32_words_refinement",
+    "C32_base_complete_or_truncated",
+    "C32_base_canonical",
+    "C32_suffix_shape",
+    "C32_reserved_name_gets_fresh_id",
+    "C32_reserved_avoided_refuted",
+    "C32_reserved_avoided_partial",
+    "C32_every_id_from_name",
+    "C32_derive_valid_label",
+    "C32_label_predicate_is_the_regex",
 ]
 EXPLANATION = (
     "Lean model of find_deployment_id/_append_random_suffix over List Char; theorems hold for every name, "
     "every availability answer sequence and every draw. Tie: constants/regexes regenerated from source "
     "(C32_source_shape) and op-by-op correspondence of the AST-extracted real functions against the model "
     "with scripted randomness; implementation-side monitor checks the real DNS-1035 regex and the "
-    "derived/suffixed clause directly."
+    "derived/suffixed clause directly. Extension: the retry loop in closed form and with the availability lookup as a "
+    "function of (lookup index, id) -- the id returned is the one the last lookup reported free, at most 99 lookups; "
+    "the three re.sub passes refine to the hyphen-join of the alphanumeric words; completeness of the derivation "
+    "(whole word-join unless cut at 63, then >= 62 chars kept); shape of suffixed ids; reserved names never get a "
+    "reserved id (full clause 'no derived id is reserved' refuted: 'list projects' -> 'list-projects'). Tie: loop bounds, "
+    "truncation arithmetic, branch tests, reserved table, force_suffix expression regenerated (C32_source_shape_control); "
+    "streams cands (ids passed to validate_deployment_id, in order), findo (lookup as a function of index and id), "
+    "suffix (_append_random_suffix on arbitrary ids), derive (create_deployment's id choice, AST-extracted)."
 )
 ASSUMPTIONS = [
     "Python str.lower() (Unicode case mapping) is taken from the runtime; the model starts from name.lower()",
     "validate_deployment_id (Kubernetes lookup) is an adversarial oracle: any sequence of answers",
     "random.choices/choice draw from the alphabets named in the source (regenerated constants)",
+    "regex semantics: Lang is the textbook whole-match meaning of the syntax tree Python's re._parser returns for _DNS_1035_RE; "
+    "Python's `$` also matches before a final newline (validate_dns_1035_label('abc\\n') passes), which Lang and isDns1035 exclude "
+    "and the dns correspondence stream accounts for explicitly",
+    "create_deployment: only the statement choosing the id (the `if explicit_id is not None … else …`) is executed, "
+    "with explicit_id=None; the Kubernetes object creation after it is outside the model",
 ]
-TRUSTED_EXTRA = ["AST extraction of find_deployment_id and _append_random_suffix (exec'd with re, scripted random, stub validate_deployment_id)"]
+TRUSTED_EXTRA = ["AST extraction of find_deployment_id and _append_random_suffix (exec'd with re, scripted random, stub validate_deployment_id)",
+                 "AST extraction of reserved_deployment_ids and of create_deployment's id-choice statement (wrapped in an async function)"]
 
 K8S = "packages/llama-agents-control-plane/src/llama_agents/control_plane/k8s_client.py"
 SCHEMA = "packages/llama-agents-core/src/llama_agents/core/schema/deployments.py"
@@ -65,6 +96,25 @@ def load_impl() -> dict[str, Any]:
     mod = ast.Module(body=wanted, type_ignores=[])
     ns: dict[str, Any] = {"re": re, "random": None, "validate_deployment_id": None}
     exec(compile(mod, repo_path(K8S), "exec"), ns)
+    # reserved ids and the statement of create_deployment that chooses the id
+    reserved = [n for n in tree.body if isinstance(n, ast.Assign) and len(n.targets) == 1
+                and isinstance(n.targets[0], ast.Name) and n.targets[0].id == "reserved_deployment_ids"]
+    create = [n for n in tree.body if isinstance(n, ast.AsyncFunctionDef) and n.name == "create_deployment"]
+    choice = None
+    if create:
+        for st in create[0].body:
+            if isinstance(st, ast.If) and any(isinstance(x, ast.Name) and x.id == "explicit_id" for x in ast.walk(st.test)) \
+                    and any(isinstance(x, ast.Call) and isinstance(x.func, ast.Name) and x.func.id == "find_deployment_id"
+                            for x in ast.walk(st)):
+                choice = st
+    if len(reserved) != 1 or choice is None:
+        raise RuntimeError("reserved_deployment_ids / create_deployment's id choice not found in k8s_client.py")
+    wrapper = ast.parse("async def _choose_id(display_name, explicit_id=None):\n    pass\n    return deployment_id\n").body[0]
+    wrapper.body[0] = choice  # type: ignore[index]
+    mod2 = ast.Module(body=[reserved[0], wrapper], type_ignores=[])
+    ast.fix_missing_locations(mod2)
+    exec(compile(mod2, repo_path(K8S), "exec"), ns)
+    ns["_real_find"] = ns["find_deployment_id"]
     return ns
 
 
@@ -164,6 +214,198 @@ def op_line(case: dict) -> str:
                      "".join("1" if a else "0" for a in case["answers"]), ds])
 
 
+def draws_str(draws: list) -> str:
+    return ";".join(cps("".join(HEX[i] for i in hexidx)) + ":" + str(ord(ALT[alt])) for hexidx, alt in draws)
+
+
+def gen_draws(rng, n: int) -> list:
+    return [([rng.randrange(16) for _ in range(5)], rng.randrange(6)) for _ in range(n)]
+
+
+def run_lookup(ns: dict[str, Any], name: str, force: bool, avail, draws: list) -> tuple[str | None, list[str], list[bool]]:
+    """find_deployment_id with validate_deployment_id = avail(lookup index, id); returns the result (None = ValueError),
+    the ids it was asked about in order and the answers given."""
+    asked: list[str] = []
+    answers: list[bool] = []
+
+    async def validate(_id: str) -> bool:
+        a = bool(avail(len(asked), _id))
+        asked.append(_id)
+        answers.append(a)
+        return a
+
+    ns["random"] = ScriptedRandom(draws)
+    ns["validate_deployment_id"] = validate
+    try:
+        r = asyncio.run(ns["find_deployment_id"](name, force_suffix=force))
+    except ValueError:
+        r = None
+    return r, asked, answers
+
+
+def run_choice(ns: dict[str, Any], name: str, answers: list[bool], draws: list) -> tuple[bool | None, str | None]:
+    """create_deployment's id choice (explicit_id=None): the force_suffix it passes and the id (None = ValueError)."""
+    it = iter(answers)
+    forces: list[bool] = []
+    real = ns["_real_find"]
+
+    async def validate(_id: str) -> bool:
+        return next(it, False)
+
+    async def spy(name: str, force_suffix: bool = False) -> str:
+        forces.append(bool(force_suffix))
+        return await real(name, force_suffix=force_suffix)
+
+    ns["random"] = ScriptedRandom(draws)
+    ns["validate_deployment_id"] = validate
+    ns["find_deployment_id"] = spy
+    try:
+        try:
+            r = asyncio.run(ns["_choose_id"](name))
+        except ValueError:
+            r = None
+    finally:
+        ns["find_deployment_id"] = real
+    return (forces[0] if forces else None), r
+
+
+RESERVEDISH = ["version", "Version", "VERSION", "version!", " version", "version ", "ver sion", "list-projects", "list projects",
+               "List_Projects", "list--projects", "organizations", "Organizations.", "organizations-", "validate-repository",
+               "validate repository", "Validate/Repository", "validate-repositor", "versions", "ⅴersion", "versıon", "list-projectſ"]
+
+
+def spec_join(lowered: str) -> str:
+    """the word-join specification, written independently of the code and of the model"""
+    return "-".join(w for w in re.split(r"[^a-z0-9]", lowered) if w)
+
+
+def opt(r: str | None) -> str:
+    return "none" if r is None else "some " + cps(r)
+
+
+def taken_avail(taken: list):
+    def avail(k: int, _id: str) -> bool:
+        return not any(t == _id and k < n for t, n in taken)
+    return avail
+
+
+def gen_ext_case(rng, kind: str, ns: dict[str, Any]) -> dict:
+    if kind == "cands":
+        return {"kind": "cands", "name": gen_name(rng), "force": rng.random() < 0.2, "draws": gen_draws(rng, 100)}
+    if kind == "findo":
+        name, force, draws = gen_name(rng), rng.random() < 0.15, gen_draws(rng, 100)
+        if rng.random() < 0.35:  # the same draw again: the same candidate is asked about at two lookups
+            for _ in range(rng.randint(1, 3)):
+                i, j = rng.randrange(8), rng.randrange(8)
+                draws[j] = (list(draws[i][0]), draws[i][1])
+        m = rng.random()
+        j = 0 if m < 0.4 else rng.randint(1, 6) if m < 0.85 else 98 if m < 0.9 else 99 if m < 0.95 else rng.randint(7, 97)
+        _, cand, _ = run_lookup(ns, name, force, lambda k, _i: k >= j + 3, draws)
+        taken = [[c, 1000] for c in cand[:j]]
+        for c in cand[j:j + 3]:
+            x = rng.random()
+            if x < 0.25:
+                taken.append([c, rng.randint(0, j + 3)])  # taken only for the early lookups
+            elif x < 0.35:
+                taken.append([c + "x", 1000])
+        if rng.random() < 0.2 and cand:
+            taken.insert(0, [cand[0], rng.randint(0, 3)])
+        rng.shuffle(taken)
+        return {"kind": "findo", "name": name, "force": force, "taken": taken, "draws": draws}
+    if kind == "suffix":
+        m = rng.random()
+        if m < 0.15:
+            ident = ""
+        elif m < 0.45:
+            ident = gen_name(rng)
+        elif m < 0.75:
+            n = rng.choice([1, 2, 5, 30, 55, 56, 57, 58, 62, 63, 64, 80])
+            ident = rng.choice("abcxyz") + "".join(rng.choice("abcxyz019-") for _ in range(n - 1))
+            ident = ident.rstrip("-") or "a"
+        else:
+            ident = spec_join(gen_name(rng).lower())
+        return {"kind": "suffix", "id": ident, "draw": gen_draws(rng, 1)[0]}
+    if kind == "derive":
+        name = rng.choice(RESERVEDISH) if rng.random() < 0.55 else gen_name(rng)
+        k = 0 if rng.random() < 0.7 else rng.randint(1, 4)
+        answers = [False] * k + [True]
+        return {"kind": "derive", "name": name, "answers": answers, "draws": gen_draws(rng, len(answers) + 1)}
+    raise ValueError(kind)
+
+
+def run_ext_case(ns: dict[str, Any], case: dict, dns: re.Pattern, out: Outcome) -> tuple[str, str]:
+    """One case of the extension streams: (driver line, what the implementation did), monitors applied."""
+    kind = case["kind"]
+    out.evaluations += 1
+    out.count("stream:" + kind)
+    if kind == "cands":
+        name, force, draws = case["name"], case["force"], [tuple(d) for d in case["draws"]]
+        r, asked, _ = run_lookup(ns, name, force, lambda _k, _i: False, draws)
+        if len(asked) > 99 or r is not None:
+            out.violations.append(Violation("C32/too_many_lookups", f"{len(asked)} lookups (result {r!r}) for name {name!r} "
+                                            "with every id reported taken", case))
+        for k, c in enumerate(asked[:99]):  # every candidate is the answer of some history: check each as such
+            v = monitor({"name": name, "force": force, "answers": [False] * k + [True], "draws": case["draws"]}, c, dns)
+            if v is not None:
+                out.violations.append(Violation(v.signature, f"lookup #{k} was about an id that breaks the property if reported free: " + v.what, case))
+                break
+        out.count(f"cands:{len(asked)}")
+        out.nontrivial(("cands", name.lower(), force, repr(case["draws"][:3])))
+        return ("|".join(["cands", "1" if force else "0", cps(name.lower()), draws_str(draws)]),
+                f"{len(asked)} " + ";".join(cps(a) for a in asked))
+    if kind == "findo":
+        name, force, draws = case["name"], case["force"], [tuple(d) for d in case["draws"]]
+        taken = [(t, n) for t, n in case["taken"]]
+        r, asked, answers = run_lookup(ns, name, force, taken_avail(taken), draws)
+        if len(asked) > 99:
+            out.violations.append(Violation("C32/too_many_lookups", f"{len(asked)} lookups for name {name!r}", case))
+        if r is not None and (not asked or asked[-1] != r or not answers[-1] or any(answers[:-1])):
+            out.violations.append(Violation(
+                "C32/validated_other_id", f"returned {r!r} for name {name!r} but the lookups were about {asked[-3:]!r} "
+                f"with answers {answers[-3:]!r}: the id returned is not the one last reported free", case))
+        if r is not None:
+            v = monitor({"name": name, "force": force, "answers": answers, "draws": case["draws"]}, r, dns)
+            if v is not None:
+                out.violations.append(Violation(v.signature, v.what, case))
+            out.nontrivial(("findo", name.lower(), force, repr(taken), repr(case["draws"][:8])))
+        out.count("findo:none" if r is None else f"findo:lookups:{min(len(asked), 8)}{'+' if len(asked) > 8 else ''}")
+        if len(set(asked)) < len(asked):
+            out.count("findo:same_id_asked_twice")
+        if any(n < 1000 for _, n in taken):
+            out.count("findo:time_varying_oracle")
+        return ("|".join(["findo", "1" if force else "0", cps(name.lower()),
+                          ";".join(cps(t) + "@" + str(n) for t, n in taken), draws_str(draws)]),
+                opt(r) + " " + str(len(asked)))
+    if kind == "suffix":
+        ident, draw = case["id"], (list(case["draw"][0]), case["draw"][1])
+        ns["random"] = ScriptedRandom([draw])
+        r = ns["_append_random_suffix"](ident, 63)
+        ok_in = ident == "" or bool(dns.match(ident) and not ident.endswith("\n"))
+        if ok_in and not (dns.match(r) and len(r) <= 63 and not r.endswith("\n")):
+            out.violations.append(Violation("C32/suffix_invalid", f"_append_random_suffix({ident!r}, 63) = {r!r} is not a DNS-1035 label", case))
+        hexs = "".join(HEX[i] for i in draw[0])
+        if not (r.endswith(hexs[1:]) and (ident == "" or r.endswith("-" + hexs))):
+            out.violations.append(Violation("C32/suffix_not_drawn", f"_append_random_suffix({ident!r}, 63) = {r!r} does not end with the drawn {hexs!r}", case))
+        out.count("suffix:" + ("empty" if ident == "" else "label" if ok_in else "other") + (":cut" if len(ident) > 57 else ""))
+        out.nontrivial(("suffix", ident, repr(draw)))
+        return "|".join(["suffix", cps(ident), draws_str([draw])]), cps(r)
+    if kind == "derive":
+        name, answers, draws = case["name"], case["answers"], [tuple(d) for d in case["draws"]]
+        force, r = run_choice(ns, name, answers, draws)
+        reserved = list(ns["reserved_deployment_ids"])
+        if name.lower() in reserved and r is not None and r in reserved:
+            out.violations.append(Violation("C32/reserved_name_reserved_id", f"display name {name!r} is reserved and got the reserved id {r!r}", case))
+        if r is not None:
+            v = monitor({"name": name, "force": bool(force), "answers": answers, "draws": case["draws"]}, r, dns)
+            if v is not None:
+                out.violations.append(Violation(v.signature, v.what, case))
+            out.nontrivial(("derive", name.lower(), tuple(answers), repr(case["draws"])))
+        out.count("derive:" + ("reserved_name" if name.lower() in reserved else "id_reserved" if r in reserved else "other"))
+        return ("|".join(["derive", cps(name.lower()), "".join("1" if a else "0" for a in answers), draws_str(draws)]),
+                ("none" if force is None else "true" if force else "false") + " " + opt(r))
+    raise ValueError(kind)
+
+
 def monitor(case: dict, result: str | None, dns: re.Pattern) -> Violation | None:
     """Property C32 stated directly on the implementation's answer."""
     if result is None:
@@ -182,7 +424,7 @@ def monitor(case: dict, result: str | None, dns: re.Pattern) -> Violation | None
     else:
         got = re.findall(r"[a-z0-9]", result)
         want = (["d"] if alnums[0].isdigit() else []) + alnums
-        if got != want[: len(got)] or (len(got) < len(want) and len(result) < 57):
+        if got != want[: len(got)] or (len(got) < len(want) and len(result) < 62):
             return Violation("C32/not_derived", f"id {result!r} is not derived from the lowercase alphanumerics of {name!r}", case)
     return None
 
@@ -190,12 +432,18 @@ def monitor(case: dict, result: str | None, dns: re.Pattern) -> Violation | None
 def run(env: Env) -> Outcome:
     out = Outcome()
     out.rule = ("names drawn from words/separators/Unicode/boundary-length generators x force flag x availability answers x "
-                "scripted draws; non-trivial = returned an id; distinct by (name.lower(), force, answers, draws)")
+                "scripted draws; non-trivial = returned an id; distinct by (name.lower(), force, answers, draws). Extension "
+                "streams: cands = every id passed to validate_deployment_id under all-taken (100 draws); findo = lookup answered "
+                "from a table (id, in use for lookups < n), repeated draws so one id is asked about twice; suffix = "
+                "_append_random_suffix on empty/valid/arbitrary ids around the 57 cut; derive = create_deployment's id choice on "
+                "reserved, nearly-reserved and generated names; words = word-join spec vs re.split; malformed lines")
     ns = load_impl()
     dns = real_dns_regex()
     cases: list[dict] = []
+    ext_cases: list[dict] = []
     if env.replay is not None:
-        cases.append(env.replay["payload"]["case"])
+        rc = env.replay["payload"]["case"]
+        (ext_cases if rc.get("kind") in ("cands", "findo", "suffix", "derive") else cases).append(rc)
     corpus = [
         {"name": "a b", "force": False, "answers": [True], "draws": [([1, 2, 3, 4, 5], 0)]},
         {"name": "1", "force": False, "answers": [True], "draws": [([1, 2, 3, 4, 5], 0)]},
@@ -237,16 +485,58 @@ def run(env: Env) -> Outcome:
     for s in dns_inputs:
         text = "".join(chr(int(x)) for x in s.split(",")) if s else ""
         impl2.append("true" if (dns.match(text) and not text.endswith("\n")) else "false")
+    # ---- extension streams: candidates asked about, lookup as a function of (index, id), the suffixer alone,
+    # create_deployment's id choice, the word-join specification, malformed lines
+    ext_cases += [
+        {"kind": "cands", "name": "1", "force": False, "draws": [([i % 16, 1, 2, 3, 4], i % 6) for i in range(100)]},
+        {"kind": "cands", "name": "9" * 70, "force": True, "draws": [([i % 16, 1, 2, 3, 4], i % 6) for i in range(100)]},
+        {"kind": "findo", "name": "my service", "force": False, "taken": [["my-service", 1000], ["my-service-01234", 1]],
+         "draws": [([0, 1, 2, 3, 4], 0)] * 100},
+        {"kind": "findo", "name": "my service", "force": False, "taken": [["my-service", 1000], ["my-service-01234", 2]],
+         "draws": [([0, 1, 2, 3, 4], 0)] * 100},
+        {"kind": "findo", "name": "", "force": False, "taken": [["a1234", 1000]],
+         "draws": [([0, 1, 2, 3, 4], 0), ([0, 1, 2, 3, 4], 1)] * 50},
+        {"kind": "suffix", "id": "", "draw": ([9, 9, 9, 9, 9], 5)},
+        {"kind": "suffix", "id": "a" * 56 + "-bcdefg", "draw": ([10, 0, 0, 0, 0], 0)},
+        {"kind": "suffix", "id": "x" * 57, "draw": ([0, 0, 0, 0, 0], 0)},
+    ] + [{"kind": "derive", "name": nm, "answers": [True], "draws": [([1, 2, 3, 4, 5], 0), ([5, 4, 3, 2, 1], 1)]} for nm in RESERVEDISH]
+    for kind, nq, nt in (("cands", 60, 1200), ("findo", 300, 6000), ("suffix", 300, 6000), ("derive", 250, 5000)):
+        n_ext = (nq if env.tier == "quick" else nt) if kind == "cands" else env.budget(nq, nt)  # cands: 99 lookups each, not widened
+        ext_cases += [gen_ext_case(env.rng, kind, ns) for _ in range(n_ext)]
+    ops3: list[str] = []
+    impl3: list[str] = []
+    for c in ext_cases:
+        line, got = run_ext_case(ns, c, dns, out)
+        ops3.append(line)
+        impl3.append(got)
+        if c["kind"] != "cands":
+            out.sample({k: (v[:3] if k == "draws" else v) for k, v in c.items()} | {"impl": got}, cap=14)
+    # the clause refuted in Lean (C32_reserved_avoided_refuted), replayed on the real code: recorded, not a verdict
+    wf, wr = run_choice(ns, "list projects", [True], [([1, 2, 3, 4, 5], 0)])
+    bypass = (wf is False and wr is not None and wr in list(ns["reserved_deployment_ids"]))
+    out.count("witness:reserved_id_for_unreserved_name:" + ("reproduced" if bypass else "not_reproduced"))
+    out.notes.append(f"display name 'list projects' -> force_suffix={wf}, id {wr!r} "
+                     f"({'a reserved id: C32_reserved_avoided_refuted reproduces on this tree' if bypass else 'not a reserved id'})")
+    word_names = [c["name"].lower() for c in cases[:env.budget(300, 3000)]]
+    ops4 = ["words|" + cps(w) for w in word_names]
+    impl4 = [cps(spec_join(w)) for w in word_names]
+    bad = ["findo|x", "cands|2|97|", "suffix|97", "derive|97|2|", "findo|0|97|97@x|", "words", "suffix|97|48,49:97:98", "cands|0|9x|"]
+    all_ops = ops + ops2 + ops3 + ops4 + bad
+    all_impl = impl_out + impl2 + impl3 + impl4 + ["bad-op"] * len(bad)
+    out.count("stream:words", len(ops4))
+    out.count("stream:malformed", len(bad))
     try:
-        model_out = Driver("deployid").run(ops + ops2)
+        model_out = Driver("deployid").run(all_ops)
     except Exception as e:  # model unavailable: correspondence cannot be established
         out.divergences.append(Divergence("deployid", 0, "<driver>", repr(e), ""))
         return out
-    out.traces_validated = len(ops) + len(ops2)
-    d = diff_streams("deployid", ops + ops2, model_out, impl_out + impl2)
-    out.disagreements_checked = len(ops) + len(ops2)
+    out.traces_validated = len(all_ops)
+    d = diff_streams("deployid", all_ops, model_out, all_impl)
+    out.disagreements_checked = len(all_ops)
     if d is not None:
         if d.index < len(cases):
             d.context = cases[d.index]
+        elif len(ops) + len(ops2) <= d.index < len(ops) + len(ops2) + len(ops3):
+            d.context = ext_cases[d.index - len(ops) - len(ops2)]
         out.divergences.append(d)
     return out
